@@ -316,11 +316,14 @@ def fam_shutdown(seed, maxk, dirs=("fwd", "rev"), policies=("eager", "lazy")):
                 # shutdown by being listed as faults (started right after it)
                 late1 = rpc_script(7, "bidi", [9, 0], [4])
                 late2 = rpc_script(8, "unary_invoke", [6], resp=2)
+                late3 = rpc_script(10, "bidi", [3], [], method="/verif.Svc/Nope")
+                late4 = rpc_script(11, "unary_invoke", [3], method="nomethod")
+                late5 = rpc_script(12, "unary_invoke", [3], method="/nope.Svc/Unary")
                 p = {"kind": pol, "seed": seed, "max": 800, "allK": True, "maxK": maxk,
                      "faults": [{"at": 0, "step": {"do": "shutdown"}}]}
                 s = scenario("shutdown-%s-%s-%s" % (wname, cname, pol), cfg, rp, p,
                              meta={"family": "shutdown"})
-                s["late"] = [late1, late2]
+                s["late"] = [late1, late2, late3, late4, late5]
                 out.append(s)
     return out
 
@@ -565,24 +568,40 @@ C2S_DEVIATIONS = [
     ("junk-unknown-sid", lambda: [raw("junk", 99)]),
     ("junk-disposed", lambda: [raw("junk", 0)]),
     ("second-message-unary", lambda: data_frames(2, 2, "c", 1, 9)),
+    ("second-message-unary-two-envelopes", lambda: [raw("msg", 2, size=20, len=5), raw("msg", 2, size=6, len=6)]),
+    ("second-message-unary-len-gt-size", lambda: [raw("msg", 2, size=4, len=9)]),
+    ("second-message-unary-overrun-envelope", lambda: [raw("msg", 2, size=8, len=4), raw("more", 2, len=9)]),
+    ("data-after-half", lambda: [raw("half", 1)] + data_frames(1, 1, "c", 1, 12) + data_frames(1, 1, "c", 2, 12) + data_frames(1, 1, "c", 3, 12)),
+    ("many-after-half", lambda: [raw("half", 1)] + sum((data_frames(1, 1, "c", k, 30) for k in range(1, 12)), [])),
 ]
 
 
-def fam_hostile_srv(seed, n=0, dirs=("fwd", "rev"), modes=("neg",)):
+def fam_hostile_srv(seed, n=0, dirs=("fwd", "rev"), modes=("neg", "legacy", "off")):
     """raw tunnel client against the real tunnel server: every single-frame (or
     short multi-frame) deviation at every position of a valid conversation with two
-    streams (one bidi, one unary bystander)"""
+    streams (one bidi, one unary bystander); with flow control (a negotiating raw
+    client using revision one) and without (a raw client that does not advertise
+    negotiation - header absent or not "on" - using revision zero); plus handlers
+    blocked sending when the peer cancels or violates the protocol"""
     rng = random.Random(seed)
     out = []
-    conv = [new_frame(1, 1), new_frame(2, 2, shape="unary")] + data_frames(1, 1, "c", 0, 12) + data_frames(2, 2, "c", 0, 9) \
-        + [raw("half", 2), raw("half", 1)]
     for d in dirs:
         for mode in modes:
+            rev = 1 if mode == "neg" else 0
+            conv = [new_frame(1, 1, rev=rev), new_frame(2, 2, shape="unary", rev=rev)] + data_frames(1, 1, "c", 0, 12) \
+                + data_frames(2, 2, "c", 0, 9) + [raw("half", 2), raw("half", 1)]
             for dname, mk in C2S_DEVIATIONS:
-                for pos in range(len(conv) + 1):
+                if mode != "neg" and (dname.startswith("overrun") or dname.startswith("wu-") or "window" in dname):
+                    continue
+                positions = range(len(conv) + 1) if mode == "neg" else (0, 3, len(conv))
+                for pos in positions:
                     if n and rng.random() > n / 100.0:
                         continue
-                    frames = conv[:pos] + mk() + conv[pos:]
+                    dev = mk()
+                    for f in dev:
+                        if f["frame"]["kind"] == "new" and "rev" in f["frame"] and f["frame"]["rev"] == 1:
+                            f["frame"]["rev"] = rev
+                    frames = conv[:pos] + dev + conv[pos:]
                     steps = copy.deepcopy(PREFIX)
                     for f in frames:
                         steps += [copy.deepcopy(f), dl("c2s")]
@@ -593,6 +612,23 @@ def fam_hostile_srv(seed, n=0, dirs=("fwd", "rev"), modes=("neg",)):
                                 "cfg": {"dir": d, "rawCli": mode}, "steps": steps, "rpcs": rpcs,
                                 "policy": {"kind": "eager", "seed": seed, "max": 200},
                                 "meta": {"family": "hostile-srv", "deviation": dname}})
+        # a handler that is blocked sending (the raw caller grants no credit) when the caller cancels,
+        # violates the protocol on that stream, or simply goes on: the tunnel and the bystander must not suffer
+        for ending in ("cancel", "junk", "overrun", "half", "none"):
+            frames = [new_frame(1, 1), new_frame(2, 2, shape="unary")] + data_frames(1, 1, "c", 0, 12)
+            steps = copy.deepcopy(PREFIX)
+            for f in frames:
+                steps += [copy.deepcopy(f), dl("c2s")]
+            steps += [sop(1, "recv")] + [sop(1, "send", n=payload_for_wire(CH)) for _ in range(5)]   # the 5th send blocks
+            tail = {"cancel": [raw("cancel", 1)], "junk": [raw("junk", 1)], "half": [raw("half", 1)], "none": [],
+                    "overrun": [raw("msg", 1, size=3 * W, len=W + 1)]}[ending]
+            for f in tail + data_frames(2, 2, "c", 0, 9) + [raw("half", 2)]:
+                steps += [copy.deepcopy(f), dl("c2s")]
+            out.append({"name": "hostile-srv-%s-blocked-handler-%s" % (d, ending), "cfg": {"dir": d, "rawCli": "neg"}, "steps": steps,
+                        "rpcs": [{"rpc": 1, "s": {"m": [op("send", n=5), op("ret", code=0)]}},
+                                 {"rpc": 2, "s": {"m": [op("recv"), op("ret", code=0, n=4)]}}],
+                        "policy": {"kind": "eager", "seed": seed, "max": 100},
+                        "meta": {"family": "hostile-srv", "deviation": "blocked-handler-" + ending}})
     return out
 
 
@@ -631,12 +667,15 @@ def fam_hostile_cli(seed, n=0, dirs=("fwd", "rev")):
     conv = [raw("hdr", 1, md={"h": ["1"]})] + data_frames(1, 1, "s", 0, 8) + [raw("hdr", 2)] + data_frames(2, 2, "s", 0, 7) \
         + [raw("close", 2, code=0, md={"t": ["2"]}), raw("close", 1, code=0, md={"t": ["1"]})]
     for d in dirs:
+      for swin in (W, 1 << 30):
         for dname, mk in S2C_DEVIATIONS:
+            if swin != W and not dname.startswith("overrun"):
+                continue
             for pos in range(len(conv) + 1):
                 if n and rng.random() > n / 100.0:
                     continue
                 frames = conv[:pos] + mk() + conv[pos:]
-                steps = [{"do": "open"}, raw("settings", -1, win=W, revs=[0, 1]), dl("s2c"),
+                steps = [{"do": "open"}, raw("settings", -1, win=swin, revs=[0, 1]), dl("s2c"),
                          cop(1, "new", shape="bidi", opts=["hdr", "trl"]), cop(1, "send", n=10), cop(1, "half"),
                          cop(2, "invoke", shape="unary", n=5), {"do": "drain"}]
                 if pos % 2 == 1 and not dname.startswith("overrun"):
@@ -644,7 +683,7 @@ def fam_hostile_cli(seed, n=0, dirs=("fwd", "rev")):
                 for f in frames:
                     steps += [copy.deepcopy(f), dl("s2c")]
                 steps += [cop(1, "recv", act="a"), cop(1, "recv", act="a"), cop(1, "trailer"), {"do": "drain"}]
-                out.append({"name": "hostile-cli-%s-%s-p%d" % (d, dname, pos),
+                out.append({"name": "hostile-cli-%s-%s-w%d-p%d" % (d, dname, swin, pos),
                             "cfg": {"dir": d, "rawSrv": "neg"}, "steps": steps,
                             "meta": {"family": "hostile-cli", "deviation": dname}})
     return out
@@ -661,11 +700,13 @@ def fam_shape(seed, n=0, dirs=("fwd", "rev")):
         for shape in ("unary", "sstream"):
             c = [op("new", shape=shape), op("send", n=5), op("send", n=6), op("send", n=7), op("half"), op("recv"), op("recv")]
             srv = [op("recv"), op("send", n=3), op("ret", code=0)] if shape == "sstream" else [op("recv"), op("ret", code=0, n=4)]
+            cfg = dict(cfg, keepSending=True)
             out.append(scenario("shape-app-c2send-%s-%s" % (shape, cname), cfg, [{"rpc": 1, "c": {"m": c}, "s": {"m": srv}}],
                                 {"kind": "eager", "seed": seed, "max": 200}, meta={"family": "shape"}))
         for shape in ("cstream",):
             c = [op("new", shape=shape), op("send", n=5), op("half"), op("recv"), op("recv")]
             srv = [op("recv"), op("recv"), op("send", n=3), op("send", n=4), op("send", n=5), op("ret", code=0)]
+            cfg = dict(cfg, keepSending=True)
             out.append(scenario("shape-app-s2send-%s-%s" % (shape, cname), cfg, [{"rpc": 1, "c": {"m": c}, "s": {"m": srv}}],
                                 {"kind": "eager", "seed": seed, "max": 200}, meta={"family": "shape"}))
     # (b) raw caller
@@ -689,6 +730,21 @@ def fam_shape(seed, n=0, dirs=("fwd", "rev")):
                                     "cfg": {"dir": d, "rawCli": "neg"}, "steps": steps,
                                     "rpcs": [{"rpc": 1, "s": {"m": srv}}], "policy": {"kind": "eager", "seed": seed, "max": 100},
                                     "meta": {"family": "shape"}})
+    # (b2) raw caller: a malformed second request on single-request methods
+    for d in dirs:
+        for shape in ("unary", "sstream"):
+            for bname, bad in (("two-envelopes", [raw("msg", 1, size=20, len=5), raw("msg", 1, size=6, len=6)]),
+                               ("len-gt-size", [raw("msg", 1, size=4, len=9)]),
+                               ("overrun-envelope", [raw("msg", 1, size=8, len=4), raw("more", 1, len=9)]),
+                               ("continuation-only", [raw("more", 1, len=4)])):
+                frames = [new_frame(1, 1, shape=shape)] + data_frames(1, 1, "c", 0, 12) + copy.deepcopy(bad) + [raw("half", 1)]
+                steps = copy.deepcopy(PREFIX)
+                for f in frames:
+                    steps += [copy.deepcopy(f), dl("c2s")]
+                srv = [op("recv"), op("recv")] + ([op("send", n=3)] if shape != "unary" else []) + [op("ret", code=0, n=4)]
+                out.append({"name": "shape-rawcli-%s-%s-malformed-second-%s" % (d, shape, bname), "cfg": {"dir": d, "rawCli": "neg"},
+                            "steps": steps, "rpcs": [{"rpc": 1, "s": {"m": srv}}], "policy": {"kind": "eager", "seed": seed, "max": 100},
+                            "meta": {"family": "shape"}})
     # (c) raw server
     for d in dirs:
         for shape in ("unary", "cstream", "sstream", "bidi"):
@@ -728,17 +784,18 @@ def fam_neg(seed, n=0, dirs=("fwd", "rev")):
                                 meta={"family": "neg", "done": [1, 2, 3, 4]}))
     # legacy caller (does not advertise) against the real server, with and without the server's flow control
     for d in dirs:
-        for srvnofc in (False, True):
-            frames = [new_frame(1, 1, rev=0, win=0)] + data_frames(1, 1, "c", 0, 12) + [raw("half", 1),
-                      new_frame(2, 2, shape="unary", rev=0, win=0)] + data_frames(2, 2, "c", 0, 9) + [raw("half", 2)]
-            steps = [{"do": "open"}, {"do": "drain"}]
-            for f in frames:
-                steps += [copy.deepcopy(f), dl("c2s")]
-            out.append({"name": "neg-legacy-cli-%s-%s" % (d, "srvnofc" if srvnofc else "srvfc"),
-                        "cfg": {"dir": d, "rawCli": "legacy", "srvNoFC": srvnofc}, "steps": steps,
-                        "rpcs": [{"rpc": 1, "s": {"m": [op("recv"), op("recv"), op("send", n=payload_for_wire(W + 5)), op("ret", code=0)]}},
-                                 {"rpc": 2, "s": {"m": [op("recv"), op("ret", code=0, n=4)]}}],
-                        "policy": {"kind": "eager", "seed": seed, "max": 200}, "meta": {"family": "neg"}})
+      for cmode in ("legacy", "off", "ON", "empty"):
+          for srvnofc in (False, True):
+              frames = [new_frame(1, 1, rev=0, win=0)] + data_frames(1, 1, "c", 0, 12) + [raw("half", 1),
+                        new_frame(2, 2, shape="unary", rev=0, win=0)] + data_frames(2, 2, "c", 0, 9) + [raw("half", 2)]
+              steps = [{"do": "open"}, {"do": "drain"}]
+              for f in frames:
+                  steps += [copy.deepcopy(f), dl("c2s")]
+              out.append({"name": "neg-legacy-cli-%s-%s-%s" % (d, cmode, "srvnofc" if srvnofc else "srvfc"),
+                          "cfg": {"dir": d, "rawCli": cmode, "srvNoFC": srvnofc}, "steps": steps,
+                          "rpcs": [{"rpc": 1, "s": {"m": [op("recv"), op("recv"), op("send", n=payload_for_wire(W + 5)), op("ret", code=0)]}},
+                                   {"rpc": 2, "s": {"m": [op("recv"), op("ret", code=0, n=4)]}}],
+                          "policy": {"kind": "eager", "seed": seed, "max": 200}, "meta": {"family": "neg"}})
     # legacy server (does not advertise) against the real caller
     for d in dirs:
         for clinofc in (False, True):
@@ -924,4 +981,36 @@ def fam_ids(seed, n, dirs=("fwd", "rev")):
             pol["faults"] = [{"at": -2, "step": {"do": "cancel", "rpc": rng.randint(1, nrpc)}}]
             meta["done"] = []
         out.append(scenario("ids-%s-%d" % (d, i), cfg, rpcs, pol, meta=meta))
+    return out
+
+
+def fam_free(seed, n, dirs=("fwd", "rev")):
+    """free-running concurrent programs: many RPCs, every actor on its own goroutine with real
+    parallelism, frames delivered at once, random delays at the library's yield points, optionally
+    a Close / cancel / carrier failure when the event log reaches a random length"""
+    rng = random.Random(seed)
+    out = []
+    pool = [0, 3, 300, payload_for_wire(CH), payload_for_wire(CH + 1), payload_for_wire(W + 1), 100000]
+    for i in range(n):
+        d = dirs[i % len(dirs)]
+        fc = rng.choice(["fc", "fc", "fc", "nofc"])
+        cfg = {"dir": d, "auto": True}
+        if fc == "nofc":
+            cfg["cliNoFC"] = True
+            cfg["srvNoFC"] = True
+        nrpc = rng.randint(4, 16)
+        rpcs = random_workload(rng, nrpc, pool, split=True, statuses=STATUS_POOL[:6], with_md=True)
+        # readers of Header / Trailer after the corresponding completion signals
+        for rs in rpcs:
+            if "a" in rs["c"]:
+                rs["c"]["a"] = [op("header")] + rs["c"]["a"] + [op("trailer")]
+        pol = {"kind": "free", "seed": rng.randrange(1 << 30)}
+        kind = rng.choice(["none", "none", "close", "cancel", "carfail", "shutdown"])
+        done = list(range(1, nrpc + 1))
+        if kind != "none":
+            step = {"do": kind} if kind != "cancel" else {"do": "cancel", "rpc": rng.randint(1, nrpc)}
+            pol["faults"] = [{"at": rng.randint(20, 400), "step": step}]
+            done = []
+        out.append({"name": "free-%s-%s-%s-%d" % (d, fc, kind, i), "cfg": cfg, "steps": [{"do": "open"}],
+                    "rpcs": rpcs, "policy": pol, "meta": {"family": "free", "done": done}})
     return out
